@@ -26,13 +26,14 @@ Lemma fold_cleared_stop (l : list (nat * list N)) : forall t,
   nodes_for (s_nodes t) (map fst l) ->
   (forall i, In i (map fst l) -> i < length (s_nodes t)) ->
   exists r' nd',
-    fold_left (fun a e => cleared_one a (fst e)) l t = set_nodes (set_ranges (set_out t (Some 0)) r') nd' /\
+    fold_left (fun a e => cleared_one a (fst e)) l t =
+      set_mem (set_nodes (set_ranges (set_out t (Some 0)) r') nd') (s_mem t - length l) /\
     nodes_for nd' [] /\ length nd' = length (s_nodes t) /\ length r' = length (s_ranges t) /\
     (forall i, nth i r' false = true <-> (nth i (s_ranges t) false = true \/ In i (map fst l))).
 Proof.
   induction l as [|[i b0] l IH]; intros t Hie Ho Hnd Hrg Hnf Hlt; simpl in *.
   - exists (s_ranges t), (s_nodes t).
-    split; [apply st_ext; simpl; auto|]. split; [exact Hnf|]. split; [reflexivity|]. split; [reflexivity|].
+    split; [apply st_ext; simpl; auto; lia|]. split; [exact Hnf|]. split; [reflexivity|]. split; [reflexivity|].
     intros; tauto.
   - inversion Hnd as [|? ? Hni Hnd']; subst.
     destruct (Hrg i (or_introl eq_refl)) as [Hri Hril].
@@ -40,18 +41,19 @@ Proof.
     destruct (nth_error (s_nodes t) i) as [ndi|] eqn:Hn; [|apply nth_error_None in Hn; lia].
     destruct (Hnf i ndi Hn) as [A _]. destruct (A (or_introl eq_refl)) as [b Hb]. subst ndi.
     assert (Hc : cleared_one t i =
-                 set_nodes (set_ranges (set_out t (Some (length l))) (upd (s_ranges t) i true)) (upd (s_nodes t) i free_node)).
+                 set_mem (set_nodes (set_ranges (set_out t (Some (length l))) (upd (s_ranges t) i true)) (upd (s_nodes t) i free_node))
+                         (pred (s_mem t))).
     { unfold cleared_one, is_checking. rewrite Ho. rewrite Hri.
       rewrite (chunk_release_ok _ i true b 0 1); [reflexivity | simpl; assumption | discriminate]. }
     rewrite Hc.
-    destruct (IH (set_nodes (set_ranges (set_out t (Some (length l))) (upd (s_ranges t) i true)) (upd (s_nodes t) i free_node)))
+    destruct (IH (set_mem (set_nodes (set_ranges (set_out t (Some (length l))) (upd (s_ranges t) i true)) (upd (s_nodes t) i free_node)) (pred (s_mem t))))
       as (r' & nd' & Heq & Hnf' & Hl1 & Hl2 & Hr'); simpl; auto.
     + intros j Hj. rewrite upd_length. destruct (Hrg j (or_intror Hj)) as [Hrj Hjl]. split; [|assumption].
       rewrite nth_upd_neq; [assumption|]. intros ->. contradiction.
     + eapply nodes_for_release; eauto.
     + intros j Hj. rewrite upd_length. apply Hlt. auto.
     + exists r', nd'. rewrite Heq.
-      split; [apply st_ext; reflexivity|]. split; [exact Hnf'|].
+      split; [apply st_ext; try reflexivity; simpl; lia|]. split; [exact Hnf'|].
       split; [rewrite Hl1; simpl; apply upd_length|]. split; [rewrite Hl2; simpl; apply upd_length|].
       intros i0. split.
       * intros Hr. apply Hr' in Hr. simpl in Hr. destruct Hr as [Hr|Hr]; [|auto].
@@ -67,24 +69,24 @@ Lemma fold_cleared_close (l : list (nat * list N)) : forall t,
   s_out t = None -> NoDup (map fst l) -> nodes_for (s_nodes t) (map fst l) ->
   (forall i, In i (map fst l) -> i < length (s_nodes t)) ->
   exists nd',
-    fold_left (fun a e => cleared_one a (fst e)) l t = set_nodes t nd' /\
+    fold_left (fun a e => cleared_one a (fst e)) l t = set_mem (set_nodes t nd') (s_mem t - length l) /\
     nodes_for nd' [] /\ length nd' = length (s_nodes t).
 Proof.
   induction l as [|[i b0] l IH]; intros t Ho Hnd Hnf Hlt; simpl in *.
-  - exists (s_nodes t). split; [apply st_ext; reflexivity|]. split; [exact Hnf | reflexivity].
+  - exists (s_nodes t). split; [apply st_ext; try reflexivity; simpl; lia|]. split; [exact Hnf | reflexivity].
   - inversion Hnd as [|? ? Hni Hnd']; subst.
     assert (Hil : i < length (s_nodes t)) by (apply Hlt; auto).
     destruct (nth_error (s_nodes t) i) as [ndi|] eqn:Hn; [|apply nth_error_None in Hn; lia].
     destruct (Hnf i ndi Hn) as [A _]. destruct (A (or_introl eq_refl)) as [b Hb]. subst ndi.
-    assert (Hc : cleared_one t i = set_nodes t (upd (s_nodes t) i free_node)).
+    assert (Hc : cleared_one t i = set_mem (set_nodes t (upd (s_nodes t) i free_node)) (pred (s_mem t))).
     { unfold cleared_one, is_checking. rewrite Ho.
       rewrite (chunk_release_ok _ i true b 0 1); [reflexivity | assumption | discriminate]. }
     rewrite Hc.
-    destruct (IH (set_nodes t (upd (s_nodes t) i free_node))) as (nd' & Heq & Hnf' & Hl1); simpl; auto.
+    destruct (IH (set_mem (set_nodes t (upd (s_nodes t) i free_node)) (pred (s_mem t)))) as (nd' & Heq & Hnf' & Hl1); simpl; auto.
     + eapply nodes_for_release; eauto.
     + intros j Hj. rewrite upd_length. apply Hlt. auto.
     + exists nd'. rewrite Heq.
-      split; [apply st_ext; reflexivity|]. split; [exact Hnf'|]. rewrite Hl1. simpl. apply upd_length.
+      split; [apply st_ext; try reflexivity; simpl; lia|]. split; [exact Hnf'|]. rewrite Hl1. simpl. apply upd_length.
 Qed.
 
 Lemma existsb_busy_free nd : nodes_for nd [] -> existsb node_busy nd = false.
@@ -177,10 +179,10 @@ Proof.
   destruct (fold_cleared_close (s_hq s) (set_hq (ht_clear s) [])) as (nd' & Heq & Hnf' & Hl1); simpl; auto.
   { apply invR_nodes_for. assumption. }
   { intros i Hi. specialize (HL i Hi). lia. }
-  unfold ht_clear in *. rewrite Heq. cbn [s_open set_nodes set_hq set_delay set_errno set_pos set_out].
+  unfold ht_clear in *. rewrite Heq. cbn [s_open set_nodes set_hq set_delay set_errno set_pos set_out set_mem].
   simpl in Hl1.
   destruct (s_open s) eqn:Hop.
-  - cbn [s_nodes set_bits set_files set_open set_nodes]. rewrite (existsb_busy_free nd' Hnf').
+  - cbn [s_nodes set_bits set_files set_open set_nodes set_mem]. rewrite (existsb_busy_free nd' Hnf').
     split; [split|simpl; repeat split; auto].
     + constructor; unfold hqi; simpl.
       * destruct S0 as [A1 A2 A3 A4]. constructor; simpl.
